@@ -85,6 +85,8 @@ def context_features(w, v):
             f.append("sendto")
         if any(k in text for k in ("\nhostoff", "\nlinkoff", "\nP H ", "\nP K ")):
             f.append("failures")
+        if "\nexecs " in text:
+            f.append("async-exec")
     elif v.key.startswith("TIME_BACKWARDS:late=") and "Variable" in v.key:
         if tracegen.has(opts, "tracing/uncategorized") or tracegen.has(opts, "tracing/categorized"):
             f.append("utilization")
@@ -256,6 +258,8 @@ DIRECTED_S4U = [
      ["tracing/actor:yes", "tracing/platform/topology:no"]),
     ("autorestart-killed-twice", D_PLAT2 + "script 0 h0 1 0 -1 1\nsleep 10\nscript 1 h1 1 0 -1 0\nsleep 1\nhostoff h0\nhoston h0\nsleep 1\n"
      "hostoff h0\nhoston h0\nend\n", ["tracing/actor:yes"]),
+    ("killed-in-unmatched-put", D_PLAT2 + "script 0 h0 1 0 1.0 0\nput mb 1000.0 - 5.0\nscript 1 h1 1 0 -1 0\nsleep 2\nend\n", ["tracing/actor:yes"]),
+    ("async-exec-test-then-wait", D_PLAT2 + "script 0 h0 1 0 -1 0\nexecs 1000000000.0 - 2.0 0.5\nend\n", ["tracing/actor:yes"]),
     # well-formed ones
     ("maestro-exec", D_PLAT2 + "M exec h0 1000000000.0 -\nscript 0 h1 1 0 -1 0\nsleep 2\nend\n", ["tracing/actor:yes"]),
     ("plain-uncat", D_PLAT2 + "script 0 h0 1 0 -1 0\nexec 1000000000.0 -\nput mb 1000000.0 - 5.0\nscript 1 h1 1 0 -1 0\nget mb 5.0\nexec 500000000.0 -\nend\n",
